@@ -1,6 +1,7 @@
 package main
 
 import (
+	"os/exec"
 	"encoding/json"
 	"fmt"
 	"os"
@@ -211,7 +212,14 @@ func (E *Engine) checkProperty(prop, tier string) int {
 	bySolver := map[string]int{}
 	var records []obRecord
 	var samples []any
+	dry := os.Getenv("GOVC_DRY") != ""
 	report := func(ob, reason string, script string, detail any) {
+		if dry {
+			// self-test run on a scratch copy: count only, write nothing
+			fmt.Printf("DRY-VIOLATION property=%s obligation=%s\n", prop, ob)
+			violations++
+			return
+		}
 		dir := filepath.Join(verifDir, "replays", prop)
 		os.MkdirAll(dir, 0o755)
 		base := sanitize(ob)
@@ -362,6 +370,19 @@ func (E *Engine) checkProperty(prop, tier string) int {
 		"assumptions": append(append([]string{}, tb...), trusted...),
 		"wall_s": time.Since(t0).Seconds(), "violations": violations,
 	}
+	if dry {
+		fmt.Printf("%s: dry run, %d violations\n", prop, violations)
+		if violations > 0 {
+			return 1
+		}
+		return 0
+	}
+	if tier == "thorough" && os.Getenv("GOVC_NO_SELFTEST") == "" {
+		// vacuity guard 3: the must-fail corpus. Every canary (a revert of a fix: commit, or an independently
+		// produced property-breaking change) is applied to a scratch copy of the working tree and must be reported.
+		st := E.selftest(prop)
+		ev["coverage"].(map[string]any)["selftest_must_fail_corpus"] = st
+	}
 	os.MkdirAll(filepath.Join(verifDir, "evidence"), 0o755)
 	b, _ := json.MarshalIndent(ev, "", " ")
 	os.WriteFile(filepath.Join(verifDir, "evidence", prop+".json"), b, 0o644)
@@ -452,4 +473,99 @@ func (E *Engine) writeBaseline() int {
 	b, _ := json.MarshalIndent(out, "", " ")
 	os.WriteFile(filepath.Join(verifDir, "baseline_obligations.json"), b, 0o644)
 	return 0
+}
+
+// selftest applies each canary change that is known to break `prop` to a scratch copy of the repository's
+// working tree (outside /repo and /verif, removed afterwards) and runs the quick check of the property on it.
+// A canary that is not reported is a weakness of the check, not a violation of the property: it is printed as
+// SELFTEST-MISS and recorded in the evidence; the exit status is not affected.
+func (E *Engine) selftest(prop string) []map[string]any {
+	type canary struct {
+		Name, Patch string
+		Reverse     bool
+		Expect      string
+	}
+	var cs []canary
+	var idx []struct {
+		Name     string `json:"name"`
+		Patch    string `json:"patch"`
+		Reverse  bool   `json:"reverse"`
+		Property string `json:"property"`
+		Expect   string `json:"expect_obligation"`
+	}
+	_ = readJSON(filepath.Join(verifDir, "selftest", "index.json"), &idx)
+	for _, e := range idx {
+		if e.Property == prop {
+			cs = append(cs, canary{e.Name, filepath.Join(verifDir, e.Patch), e.Reverse, e.Expect})
+		}
+	}
+	dirs, _ := filepath.Glob(filepath.Join(verifDir, "seeded", "C*"))
+	sort.Strings(dirs)
+	for _, d := range dirs {
+		var m struct {
+			Property string   `json:"property"`
+			Also     []string `json:"also_check"`
+			Catch    string   `json:"caught_by"`
+		}
+		if readJSON(filepath.Join(d, "meta.json"), &m) != nil {
+			continue
+		}
+		hit := m.Property == prop
+		for _, a := range m.Also {
+			hit = hit || a == prop
+		}
+		if hit {
+			cs = append(cs, canary{"seed-" + filepath.Base(d), filepath.Join(d, "patch.diff"), false, ""})
+		}
+	}
+	var out []map[string]any
+	self, _ := os.Executable()
+	for _, c := range cs {
+		rec := map[string]any{"canary": c.Name}
+		scratch, err := os.MkdirTemp("", "govc-selftest-")
+		if err != nil {
+			rec["status"] = "skipped: " + err.Error()
+			out = append(out, rec)
+			continue
+		}
+		func() {
+			defer os.RemoveAll(scratch)
+			if o, err := exec.Command("sh", "-c", fmt.Sprintf("cd %q && tar --exclude=.git -cf - . | (cd %q && tar -xf -)", E.P.Dir, scratch)).CombinedOutput(); err != nil {
+				rec["status"] = "skipped: copy failed: " + string(o)
+				return
+			}
+			args := []string{"-p1", "-s", "-f", "-d", scratch, "-i", c.Patch}
+			if c.Reverse {
+				args = append([]string{"-R"}, args...)
+			}
+			if o, err := exec.Command("patch", args...).CombinedOutput(); err != nil {
+				rec["status"] = "skipped: patch does not apply to the current working tree"
+				_ = o
+				return
+			}
+			cmd := exec.Command(self, "check", "-prop", prop, "-tier", "quick", "-repo", scratch)
+			cmd.Env = append(os.Environ(), "GOVC_DRY=1")
+			o, _ := cmd.CombinedOutput()
+			n := strings.Count(string(o), "DRY-VIOLATION")
+			rec["violations_reported"] = n
+			if n > 0 {
+				rec["status"] = "reported"
+				var obs []string
+				for _, l := range strings.Split(string(o), "\n") {
+					if i := strings.Index(l, "obligation="); i >= 0 && len(obs) < 4 {
+						obs = append(obs, l[i+len("obligation="):])
+					}
+				}
+				rec["first_obligations"] = obs
+				if c.Expect != "" {
+					rec["expected_obligation_reported"] = strings.Contains(string(o), "obligation="+c.Expect+"\n")
+				}
+			} else {
+				rec["status"] = "MISSED"
+				fmt.Printf("SELFTEST-MISS: property=%s canary=%s is not reported by this check\n", prop, c.Name)
+			}
+		}()
+		out = append(out, rec)
+	}
+	return out
 }
